@@ -30,6 +30,7 @@ Dw(f, t, n) == It("dw", "dw", f, 0, 0, 0, t, n)
 Const(t, n) == It("const", "", "", 0, 0, 0, t, n)
 Brk(m, a, b, t, n) == It("brk", m, "", a, b, 0, t, n)
 Jalk(a, t, n) == It("jalk", "jal", "", a, 0, 0, t, n)
+Pjk(m, t, n) == It("pjk", m, "", 0, 0, 0, t, n)
 Align(n) == It("align", "", "", 0, 0, 0, "", n)
 Data(n) == It("data", "", "", 0, 0, 0, "", n)
 Gap(n) == It("gap", "", "", 0, 0, 0, "", n)
@@ -84,7 +85,8 @@ Literals ==
 
 \* branches / jumps to an ABSOLUTE address held in a constant (the distance grows when earlier items shrink)
 Abs ==
-  << Const("K1", 260), Const("K2", 2052), I4, IC, Li(9, 0, 5), Li(9, 4660, 22136), Pj("call", "L1"), Lab("L1"),
+  << Const("K1", 260), Const("K2", 2052), Const("K3", 1048578), I4, IC, Li(9, 0, 5), Li(9, 4660, 22136), Pj("call", "L1"), Lab("L1"),
+     Pjk("tail", "K3", 1048578), Pjk("call", "K3", 1048578), Pjk("call", "K1", 260),
      Brk("beq", 8, 0, "K1", 260), Brk("bne", 9, 0, "K1", 260), Brk("blt", 5, 6, "K1", 260), Jalk(0, "K2", 2052), Jalk(1, "K2", 2052),
      Align(4), Data(2) >>
 \* odd alignments and odd-sized data between a branch and its label
@@ -99,7 +101,10 @@ DataMix ==
      Raw("dh 0x1234", EmitInt(2, FALSE, FromInt(4660), "infer", FALSE)),
      Raw("dd 5", EmitInt(8, FALSE, FromInt(5), "infer", FALSE)),
      Raw("shorts 1 -2 3", EmitInt(2, FALSE, FromInt(1), "infer", FALSE) \o EmitInt(2, TRUE, FromInt(2), "infer", FALSE) \o EmitInt(2, FALSE, FromInt(3), "infer", FALSE)),
-     Raw("longs 7", EmitInt(4, FALSE, FromInt(7), "infer", FALSE)),
+     Raw("longs 7 -7", EmitInt(4, FALSE, FromInt(7), "infer", FALSE) \o EmitInt(4, TRUE, FromInt(7), "infer", FALSE)),
+     Raw("ints -1", EmitInt(4, TRUE, FromInt(1), "infer", FALSE)),
+     Raw("bytes -128", EmitInt(1, TRUE, FromInt(128), "infer", FALSE)),
+     Raw("dw -2", EmitInt(4, TRUE, FromInt(2), "infer", FALSE)),
      Raw("longlongs -1", EmitInt(8, TRUE, FromInt(1), "infer", FALSE)),
      Raw("bytes 1 2 3", <<1, 2, 3>>),
      Raw("pack >H 258", EmitInt(2, FALSE, FromInt(258), "u", TRUE)),
@@ -122,7 +127,7 @@ Next == Extend
 Spec == Init /\ [][Next]_prog
 
 DefCount(its, t) == Cardinality({j \in 1..Len(its) : its[j].k = "lab" /\ its[j].t = t})
-Refs(its) == {its[j].t : j \in {x \in 1..Len(its) : its[x].t # "" /\ its[x].k \notin {"lab", "const", "brk", "jalk"}}}
+Refs(its) == {its[j].t : j \in {x \in 1..Len(its) : its[x].t # "" /\ its[x].k \notin {"lab", "const", "brk", "jalk", "pjk"}}}
 FirstDef(its, t) == CHOOSE j \in 1..Len(its) : its[j].k = "lab" /\ its[j].t = t
 WellFormed(its) ==
   /\ its # <<>>
@@ -131,9 +136,9 @@ WellFormed(its) ==
   \* label symmetry: if both are defined, L1 is the one defined first; L2 alone is never defined
   /\ DefCount(its, "L2") = 1 => (DefCount(its, "L1") = 1 /\ FirstDef(its, "L1") < FirstDef(its, "L2"))
   /\ Cardinality({j \in 1..Len(its) : its[j].k = "gap"}) <= MaxGapItems
-  /\ \A j \in 1..Len(its) : its[j].k \in {"brk", "jalk"} =>
+  /\ \A j \in 1..Len(its) : its[j].k \in {"brk", "jalk", "pjk"} =>
         (\E q \in 1..Len(its) : its[q].k = "const" /\ its[q].t = its[j].t)
-  /\ \A t \in {"K1", "K2"} : Cardinality({j \in 1..Len(its) : its[j].k = "const" /\ its[j].t = t}) <= 1
+  /\ \A t \in {"K1", "K2", "K3"} : Cardinality({j \in 1..Len(its) : its[j].k = "const" /\ its[j].t = t}) <= 1
   \* a program that ends in a label-free tail after its last reference/label adds nothing: the last item matters
   /\ its[Len(its)].k \notin {"data"}
 
